@@ -54,6 +54,7 @@ import uuid
 import xml.etree.ElementTree as ET
 import urllib.request as urllib_request
 import socket
+import hashlib
 import os
 import threading
 from io import BytesIO
@@ -486,7 +487,10 @@ class OFXClient:
 
         ofxget.scan_profile() overrides version/prettyprint/close_elements.
         """
-        filename = f"{self.org}-{self.fid}.profrs"
+        # The cache belongs to one server: different FIs may share (or lack)
+        # ORG/FID, so the URL is part of the key.
+        urlkey = hashlib.sha256((url or self.url or "").encode()).hexdigest()[:16]
+        filename = f"{self.org}-{self.fid}-{urlkey}.profrs"
         persistdir = config.DATADIR / "fiprofiles"
         persistpath = persistdir / filename
 
